@@ -116,7 +116,7 @@ func Open(filename string, opts ...Option) (*Whisper, error) {
 
 	w.fileBuf = filebuffer.New(w.file, st.Size(), w.pageSize)
 
-	if err := w.readHeader(); err != nil {
+	if err := w.readHeader(st.Size()); err != nil {
 		w.file.Close()
 		return nil, fmt.Errorf("readHeader: %s: %s", filename, err)
 	}
@@ -421,7 +421,7 @@ func (w *Whisper) putHeader() error {
 	return nil
 }
 
-func (w *Whisper) readHeader() error {
+func (w *Whisper) readHeader(fileSize int64) error {
 	buf := make([]byte, w.pageSize)
 	if _, err := w.fileBuf.ReadAt(buf[:metaSize], 0); err != nil {
 		return err
@@ -435,6 +435,9 @@ func (w *Whisper) readHeader() error {
 		}
 
 		wantSize := werr.WantedBufSize
+		if int64(wantSize) > fileSize {
+			return fmt.Errorf("file is too short (%d bytes) for its %d bytes header", fileSize, wantSize)
+		}
 		if wantSize > len(buf) {
 			buf = make([]byte, wantSize)
 		}
